@@ -206,6 +206,19 @@ def extract(missing):
     pf = fn_body(hr, "poll_read_fail") or ""
     f["httpFragmentClipped"] = bool(re.search(
         r"if item\.len\(\) as u64 > self\.size \{\s*item\.truncate\(self\.size as usize\);\s*\}\s*self\.offset \+= item\.len\(\) as u64;", pf))
+    # 7. the decompressor's output is limited to the size declared for the chunk (F11 repair)
+    comp = strip_comments(rd("bitar/src/compression.rs"))
+    dc = fn_body(comp, "decompress") or ""
+    m = re.search(r"let mut (\w+) = (\w+) \{\s*buf: Vec::with_capacity\(size_hint\),\s*limit: size_hint,?\s*\}", dc)
+    limited = False
+    if m:
+        ty = m.group(2)
+        wi = re.search(r"impl std::io::Write for %s \{(.*?)\n\}" % re.escape(ty), comp, re.S)
+        limited = bool(wi and re.search(r"if data\.len\(\) > self\.limit - self\.buf\.len\(\) \{\s*return Err\(", wi.group(1)))
+        # every decompressor must write into it, and the result must be its buffer
+        limited = limited and len(re.findall(r"&mut %s\b" % re.escape(m.group(1)), dc)) >= 1 and \
+            bool(re.search(r"Ok\(Bytes::from\(%s\.buf\)\)" % re.escape(m.group(1)), dc))
+    f["decompressOutputLimited"] = limited
     return f
 
 
@@ -302,6 +315,8 @@ def gen(f):
         "def ioGrowBounded : Bool := %s" % ("true" if f.get("ioGrowBounded") else "false"),
         "/-- `HttpRangeRequest::single_fail` stops taking body frames once `body.len() <this> size` -/",
         'def httpSingleStopIf : String := "%s"' % (f.get("httpSingleStopIf") or "unknown"),
+        "/-- `CompressionAlgorithm::decompress` writes into a buffer that refuses more than the declared size -/",
+        "def decompressOutputLimited : Bool := %s" % ("true" if f.get("decompressOutputLimited") else "false"),
         "/-- `poll_read_fail` truncates a body frame longer than what is still requested -/",
         "def httpFragmentClipped : Bool := %s" % ("true" if f.get("httpFragmentClipped") else "false"),
         "",
